@@ -44,17 +44,18 @@ func (o c15Op) String() string {
 }
 
 type c15Run struct {
-	r        *Run
-	e        *WitEnv
-	l        *WitLog
-	rng      *Rng
-	trace    []string
-	tickets  map[int][]byte // pending size -> ticket seen in a mirror-info answer
-	pendings []int
-	faultArm func(c *Call) (Decision, bool)
-	fmu      sync.Mutex
-	mirrorN  int64 // last mirror size recorded (from the monitor)
-	mcommits int
+	r            *Run
+	e            *WitEnv
+	l            *WitLog
+	rng          *Rng
+	trace        []string
+	tickets      map[int][]byte // pending size -> ticket seen in a mirror-info answer
+	pendings     []int
+	faultArm     func(c *Call) (Decision, bool)
+	fmu          sync.Mutex
+	mirrorN      int64 // last mirror size recorded (from the monitor)
+	noStoreAudit bool  // public storage is not the in-memory world (LocalBackend)
+	mcommits     int
 }
 
 func mirrorPrefix(origin string) string { return "mirror/" + witness.OriginHash(origin) + "/" }
@@ -326,9 +327,12 @@ func (cr *c15Run) postEntries(body []byte, gz bool, end int64, what string) (int
 		if rc == nil || rc.Size < end {
 			cr.e.violate("mirror-cosignature-released-without-record", "add-entries released a mirror cosignature for size %d but the recorded mirror checkpoint is %v", end, rc)
 		}
-		cr.e.W.mu.Lock()
-		msg := auditMirror(cr.e.W, l, l.Chains[0], end, root)
-		cr.e.W.mu.Unlock()
+		msg := ""
+		if !cr.noStoreAudit {
+			cr.e.W.mu.Lock()
+			msg = auditMirror(cr.e.W, l, l.Chains[0], end, root)
+			cr.e.W.mu.Unlock()
+		}
 		if msg != "" {
 			cr.e.violate("mirror-signed-unservable-tree", "add-entries answered 200 for size %d but: %s", end, msg)
 		}
